@@ -56,12 +56,6 @@ theorem checker_sound_compiled (cfg : UCfg) (fc : FCfg) (g : Compile.Graph) (aux
     exact hok.1.1
   exact checker_sound fg d hok _ (exec_from_compile cfg fc g aux fg comp hwf hsup hfg hfwf hc) p ad sig t hd hf ht
 
-/-- Is this tagged event produced by a node that calls (a cast of) graph input `t`? -/
-def byCallerOf (fg : Factory.Graph) (t : Nat) (p : Option Nat × Event) : Bool :=
-  match p.1 with
-  | some j => callsInput fg t j
-  | none => false
-
 /-- **factory_called_once_compiled**: for a compiled graph accepted by the checker and every factory position `p` (graph
 input `t`, signature `sig`, solved shape `solved`):
   * exactly one application `i` of the schedule calls (a cast of) `t`; its positional arguments are the tuple `solved`;
